@@ -308,5 +308,32 @@ def finish(run, level, coverage, violations, assumptions, extra=None):
         ev.update(extra)
     with open(os.path.join(outroot, "evidence", run.id + ".json"), "w") as f:
         json.dump(ev, f, indent=1, default=str)
+    _EVIDENCE_RUNS.append(ev)
     log("[%s %s seed=%s] violations=%d known=%d wall=%.1fs" % (run.id, run.tier, run.seed, len(new), len(known), ev["wall_s"]))
     return rc
+
+
+_EVIDENCE_RUNS = []
+
+
+def merge_evidence(pid, per_seed):
+    """thorough tier with several seeds: the evidence file describes all of them (counts summed, distinct counts of the
+    largest run - the symbolic cases are the same, their concretisations differ)"""
+    outroot = ROOT if REPO == "/repo" else None
+    if outroot is None or not _EVIDENCE_RUNS:
+        return
+    last = dict(_EVIDENCE_RUNS[-1])
+    cov = dict(last["coverage"])
+    for k in ("evaluations", "traces_validated_against_impl", "transitions"):
+        if all(isinstance(e["coverage"].get(k), int) for e in _EVIDENCE_RUNS):
+            cov[k] = sum(e["coverage"][k] for e in _EVIDENCE_RUNS)
+    for k in ("distinct_nontrivial", "states"):
+        if all(isinstance(e["coverage"].get(k), int) for e in _EVIDENCE_RUNS):
+            cov[k] = max(e["coverage"][k] for e in _EVIDENCE_RUNS)
+    cov["seeds"] = [{"seed": e["seed"], "evaluations": e["coverage"].get("evaluations"), "violations": e["violations"], "wall_s": e["wall_s"]} for e in _EVIDENCE_RUNS]
+    last["coverage"] = cov
+    last["seed"] = _EVIDENCE_RUNS[0]["seed"]
+    last["wall_s"] = round(sum(e["wall_s"] for e in _EVIDENCE_RUNS), 2)
+    last["violations"] = sum(e["violations"] for e in _EVIDENCE_RUNS)
+    with open(os.path.join(outroot, "evidence", pid + ".json"), "w") as f:
+        json.dump(last, f, indent=1, default=str)
